@@ -91,7 +91,7 @@ def generic_run(binary, relevant_cmds, oracle_tags, sizes, canon=None, extra_arg
                 if scenario_cmd is not None:
                     # stateful scenarios: once implementation and model have diverged their states differ and
                     # later lines of the scenario say nothing; only the first diverging line is attributed
-                    if cmd == scenario_cmd:
+                    if cmd == scenario_cmd or (isinstance(scenario_cmd, (set, tuple)) and cmd in scenario_cmd):
                         diverged = False
                     if diverged:
                         continue
@@ -395,6 +395,55 @@ def c16_run(pid, spec, tier, seed, replay):
     return {"coverage": total, "violations": violations}
 
 
+def c20_run(pid, spec, tier, seed, replay):
+    """type ids over hand-built IR (typeid harness, against the model) and, for the schema corpus of harness-typed, the
+    layouts that the derive / service macros and the code generator produce against the schema (oracle of the typed harness)"""
+    base = generic_run("typeid", {"tid"}, {"C20"}, {"quick": (400, 4), "thorough": (6000, 14)},
+                       canon=lambda q, line: line.split(" ")[0], rule=C20_RULE)
+    res = base(pid, spec, tier, seed, replay)
+    if replay:
+        return res
+    env = dict(os.environ)
+    env["CARGO_NET_OFFLINE"] = "true"
+    env.pop("TYPED_SCHEMA_DIR", None)
+    wd = os.path.join(WORK, f"{pid}-{tier}-layouts")
+    subprocess.run(["rm", "-rf", wd])
+    os.makedirs(wd, exist_ok=True)
+    binary = os.path.join(wd, "typed")
+    lock = _cargo_lock()
+    try:
+        p = subprocess.run(["cargo", "build", "--offline", "--release"], cwd=TYPED_DIR, env=env, stdout=subprocess.PIPE,
+                           stderr=subprocess.STDOUT, text=True, timeout=3600)
+        if p.returncode == 0:
+            subprocess.run(["cp", os.path.join(HARNESS_BIN, "typed"), binary], check=True)
+    finally:
+        lock.close()
+    if p.returncode != 0:
+        res["violations"].append(("harness", "typed harness no longer builds against /repo (layouts of generated code not compared)",
+                                  "broken tie: cargo build of harness-typed failed\n" + p.stdout[-3000:], False))
+        return res
+    lay = generic_run(binary, set(), {"C20"}, {"quick": (0, 1), "thorough": (0, 1)}, canon=None, subdir="-layouts-run")
+    r2 = lay(pid, spec, tier, seed, None)
+    res["coverage"]["oracle_failures"] += r2["coverage"].get("oracle_failures", 0)
+    for k, v in r2["coverage"].get("distribution", {}).items():
+        res["coverage"]["distribution"][k] = res["coverage"]["distribution"].get(k, 0) + v
+    res["coverage"]["generated_layouts_compared"] = sum(v for k, v in r2["coverage"].get("distribution", {}).items() if k.startswith("layout."))
+    res["violations"] += r2["violations"]
+    subprocess.run(["rm", "-f", binary])
+    return res
+
+
+C20_RULE = ("random type graphs of 1-8 types (structs, enums, newtypes, services, generic built-ins incl. "
+            "map/result/array, cycles through custom types, field ids at varint boundaries, docs with quotes / "
+            "newlines / non-ASCII) built through the public IR builders and computed by TypeId::compute_from_dyn; "
+            "per case the same graph again with fresh docs, shuffled builder calls and shuffled / duplicated "
+            "reference lists, and once more after one semantic edit of a reachable type; one request line = one "
+            "(graph, root) pair, answered with the final id. Generated code: for every struct, enum, newtype, inline type and "
+            "service of the schema corpus (harness-typed/schemas, compiled through `aldrin::generate!` with introspection) the "
+            "layout reported by `Introspectable::layout()` is compared with the one derived from the parser's AST (ids, names, "
+            "required flags, lexical ids of all types, function / event parts, fallbacks of both kinds, uuid, version)")
+
+
 PROPS = {
     "C01": {
         "props_module": "Aldrin.Props.C01",
@@ -455,17 +504,12 @@ PROPS = {
         "props_module": "Aldrin.Props.C20",
         "namespace": "Aldrin.TypeIdM",
         "level": "proof",
-        "run": generic_run("typeid", {"tid"}, {"C20"}, {"quick": (400, 4), "thorough": (6000, 14)},
-                           canon=lambda q, line: line.split(" ")[0],
-                           rule="random type graphs of 1-8 types (structs, enums, newtypes, services, generic built-ins incl. "
-                                "map/result/array, cycles through custom types, field ids at varint boundaries, docs with quotes / "
-                                "newlines / non-ASCII) built through the public IR builders and computed by TypeId::compute_from_dyn; "
-                                "per case the same graph again with fresh docs, shuffled builder calls and shuffled / duplicated "
-                                "reference lists, and once more after one semantic edit of a reachable type; one request line = one "
-                                "(graph, root) pair, answered with the final id"),
+        "run": c20_run,
         "trusted": ["SHA-1 / UUIDv5 are evaluated by the model's own implementation and compared with the uuid crate on every case; "
                     "collision resistance is assumed", "that the closure loop reaches exactly the reachable types is tied by the "
-                    "correspondence, not proved"],
+                    "correspondence, not proved",
+                    "the AST-to-layout translation of harness-typed/build.rs (it follows the code generator in giving `vec<u8>` the "
+                    "lexical id of `bytes`); that macro-generated layouts are the schema's is an implementation-only oracle on the corpus"],
     },
     "C16": {
         "props_module": "Aldrin.Props.C16",
@@ -577,15 +621,20 @@ PROPS = {
         "props_module": "Aldrin.Props.C19",
         "namespace": "Aldrin.Disc",
         "level": "proof",
-        "run": generic_run("disc", {"ddrain", "dstate", "dbus"}, {"C19"}, {"quick": (120, 4), "thorough": (1500, 14)},
-                           canon=None, scenario_cmd="dnew", full_canon=lambda q, line: line,
+        "run": generic_run("disc", {"ddrain", "dstate", "dbus", "lft"}, {"C19"}, {"quick": (160, 4), "thorough": (2000, 14)},
+                           canon=None, scenario_cmd=("dnew", "lft"), full_canon=lambda q, line: line,
                            rule="scenarios against a real broker (aldrin-test TestBroker on a current-thread tokio runtime): one client "
                                 "creating / destroying objects and services over pools of 3 object and 3 service UUIDs (re-creation under "
                                 "new cookies, partial service sets, destruction of objects with services), one client with a Discoverer "
                                 "of 1-3 entries of all four kinds, built before or after the bus is populated, restarted (all / current "
                                 "only) at random points; after every bus operation the discoverer is drained and its events compared, "
                                 "its found-set is dumped at random points and at the end, where it is also checked against the bus "
-                                "(implementation-only oracle); one request line = one bus event / drain / dump"),
+                                "(implementation-only oracle), and `find_object` for the first entry's request is checked against the bus; every "
+                                "fourth scenario: one object UUID created and destroyed under fresh cookies, 1-3 `Lifetime`s bound by "
+                                "the other client at a random point to the living id, an id of the past or one that never existed, "
+                                "polled after every further operation (answer ended / pending, compared with the model and, as an "
+                                "implementation-only oracle, with whether the scope lives); one request line = one bus event / drain / "
+                                "dump / lifetime poll"),
         "trusted": ["the harness derives the bus events an operation stands for (object destruction reports its services first) from the "
                     "results of the client API; the order of the discoverer's events for one bus operation is compared as a multiset "
                     "(entries are iterated in hash order)"],
